@@ -162,6 +162,8 @@ def families(tier):
     fam['types2'] = lists_over(A1, 2)
     fam['het'] = lists_over(HET, 2 if tier == 'quick' else 3)
     fam['strings'] = strings(3)
+    # every string of <= 4 characters over {x, y, CR, LF}: bare CR next to LF (a CR that becomes part of a CRLF when text is appended), empty lines, mixed terminators
+    fam['crlf'] = [''.join(t) for n in range(0, 5) for t in itertools.product('xy\r\n', repeat=n)]
     # lines that are similar without being equal (the line aligner's second level): four similar bodies and one dissimilar
     fam['simlines'] = strings(3, bodies=SIM_BODIES) if tier == 'quick' else strings(4, bodies=SIM_BODIES[:3] + SIM_BODIES[4:])
     for sep, g in separator_strings().items():
@@ -179,6 +181,7 @@ def merge_families(tier):
     fam = {}
     fam['lists3'] = lists_over(A0, 3)
     fam['strings2'] = strings(2)
+    fam['crlf3'] = [''.join(t) for n in range(0, 4) for t in itertools.product('x\r\n', repeat=n)]
     fam['simlines2'] = strings(2, bodies=SIM_BODIES[:2] + SIM_BODIES[4:]) + ["k = 1\nk = 2\nk = 3\n", "k = 1\nzz\nk = 2\n"]
     fam['objects1'] = objects(keys=("a", "b"), values=[0, 1, "x", [0], {"c": 0}])
     fam['het2'] = lists_over([0, "a", [0], {"k": 0}], 2)
